@@ -29,13 +29,61 @@ PRIMES = [7, 11, 13, 46337]
 MODELQ = 46337
 SPEC_FILES = ["Algebra.tla", "AlgebraMC.tla", "AlgebraTrace.tla"]
 MC_INVARIANTS = ["ChooseLaws", "ChooseEarlyReturn", "RationalLaw", "FieldLagrangeLaw", "ReconstructLaw", "AcceptLaw", "DetectLaw",
-                 "TranscriptionLaw", "BelowThresholdLaw"]
+                 "TranscriptionLaw", "BelowThresholdLaw", "MomentLaw", "BigMomentLaw", "BigSetsOK", "HelperLaws"]
+
+
+BIGQ = 257     # prime > every n of the large DKGs: field of the verdict model for those
 
 
 def params(tr):
     if tr == "quick":
-        return dict(MaxN=6, VecN=8, FullMax=1400, nsample=4, RecN=8, rec_reps=2, DkgN=5, dkg_reps=2, ps_all_subsets_n=5, ps_sample=10, workers=8)
-    return dict(MaxN=6, VecN=8, FullMax=120000, nsample=12, RecN=8, rec_reps=8, DkgN=6, dkg_reps=8, ps_all_subsets_n=6, ps_sample=0, workers=8)
+        return dict(MaxN=6, VecN=8, FullMax=1400, nsample=4, RecN=8, rec_reps=2, DkgN=5, dkg_reps=2, ps_all_subsets_n=5, ps_sample=10, workers=8,
+                    big_sizes=[2, 3, 5, 8, 13, 16, 20, 21, 22, 32, 48, 64], rand_sizes=[4, 17, 21, 22, 33, 64],
+                    big_nt=[(24, 22), (32, 17), (40, 40)], big_dkg=[(22, 21), (40, 40)],
+                    big_choose=[(n, k) for n in (12, 16) for k in range(0, n + 2)] +
+                               [(20, 10), (21, 20), (22, 21), (22, 11), (24, 22), (32, 30), (40, 39), (40, 38), (64, 2), (64, 62), (256, 2), (256, 254)])
+    return dict(MaxN=6, VecN=8, FullMax=120000, nsample=12, RecN=8, rec_reps=8, DkgN=6, dkg_reps=8, ps_all_subsets_n=6, ps_sample=0, workers=8,
+                big_sizes=list(range(2, 65)) + [65, 96, 128, 200, 256], rand_sizes=[3, 9, 16, 17, 20, 21, 22, 23, 40, 64, 100, 150, 256],
+                big_nt=[(21, 21), (22, 21), (24, 22), (32, 17), (40, 40), (64, 33), (100, 67), (256, 171)],
+                big_dkg=[(21, 21), (22, 21), (24, 22), (40, 40)],
+                big_choose=[(n, k) for n in range(9, 21) for k in range(0, n + 2)] +
+                           [(21, 20), (22, 21), (22, 11), (23, 11), (24, 22), (26, 24), (32, 30), (32, 3), (40, 39), (40, 38), (64, 2), (64, 62), (100, 98),
+                            (256, 2), (256, 254), (256, 255)])
+
+
+def binom(n, k):
+    if k < 0 or k > n:
+        return 0
+    r = 1
+    for i in range(1, min(k, n - k) + 1):
+        r = r * (n - i + 1) // i
+    return r
+
+
+def big_constants(p, rng):
+    """the LARGE cases the model is asked to demand (AlgebraMC turns them into its case list, AlgebraTrace checks completeness)"""
+    rands = []
+    for s in p["rand_sizes"]:
+        rands.append(sorted(rng.sample(range(1, 65536), s)))            # sparse over the whole identifier range
+        rands.append(sorted(rng.sample(range(1, 3 * s + 1), s)))        # dense
+    for (n, k) in p["big_choose"]:
+        if binom(n, k) * max(n, 1) >= 1 << 31 or binom(n, k) > 3000000:
+            raise vlib.CheckError("large choose case (%d,%d) is not affordable" % (n, k))
+    return dict(sizes=sorted(p["big_sizes"]), randsets=rands, nt=[list(x) for x in p["big_nt"]], dkg=[list(x) for x in p["big_dkg"]],
+                choose=[list(x) for x in p["big_choose"]])
+
+
+def tla_set(xs):
+    return "{" + ", ".join(tla_seq(x) if isinstance(x, (list, tuple)) else str(x) for x in xs) + "}"
+
+
+def big_defs(big):
+    return ("c_BigSizes == %s\nc_RandSets == %s\nc_BigNT == %s\nc_BigDkg == %s\nc_BigChoose == %s\n"
+            % (tla_set(big["sizes"]), tla_seq(big["randsets"]), tla_set(big["nt"]), tla_set(big["dkg"]), tla_set(big["choose"])))
+
+
+BIG_CFG = "BigSizes <- c_BigSizes RandSets <- c_RandSets BigNT <- c_BigNT BigDkg <- c_BigDkg BigChoose <- c_BigChoose BigQ = %d" % BIGQ
+NO_BIG = dict(sizes=[], randsets=[], nt=[], dkg=[], choose=[])
 
 
 def tla_seq(xs):
@@ -47,24 +95,31 @@ def tla_seq(xs):
 
 def tlc_laws(wd, p, rng):
     sample = [[rng.randrange(0, MODELQ) for _ in range(max(p["VecN"], 8))] for _ in range(p["nsample"])]
+    big = big_constants(p, rng)
     with open(os.path.join(wd, "MC_algebra.tla"), "w") as f:
-        f.write("---- MODULE MC_algebra ----\nEXTENDS AlgebraMC\nc_Primes == {%s}\nc_Sample == %s\n====\n"
-                % (", ".join(map(str, PRIMES)), tla_seq(sample)))
+        f.write("---- MODULE MC_algebra ----\nEXTENDS AlgebraMC\nc_Primes == {%s}\nc_Sample == %s\n%s====\n"
+                % (", ".join(map(str, PRIMES)), tla_seq(sample), big_defs(big)))
     with open(os.path.join(wd, "MC_algebra.cfg"), "w") as f:
-        f.write("CONSTANTS Primes <- c_Primes MaxN = %d VecN = %d FullMax = %d Sample <- c_Sample ModelQ = %d\nINIT Init\nNEXT Next\n"
-                "INVARIANTS %s\n" % (p["MaxN"], p["VecN"], p["FullMax"], MODELQ, " ".join(MC_INVARIANTS)))
-    r = vlib.run_tlc("MC_algebra", "MC_algebra.cfg", SPEC_FILES[:2], workdir=wd, timeout=1500, keep_prints=["CHOOSE", "LAG", "DKGC"])
+        f.write("CONSTANTS Primes <- c_Primes MaxN = %d VecN = %d FullMax = %d Sample <- c_Sample ModelQ = %d\n %s\nINIT Init\nNEXT Next\n"
+                "INVARIANTS %s\n" % (p["MaxN"], p["VecN"], p["FullMax"], MODELQ, BIG_CFG, " ".join(MC_INVARIANTS)))
+    r = vlib.run_tlc("MC_algebra", "MC_algebra.cfg", SPEC_FILES[:2], workdir=wd, timeout=1500,
+                     keep_prints=["CHOOSE", "LAG", "DKGC", "BIGC", "BDEALC", "BCHOOSEC"])
     if r.violation:
         raise vlib.CheckError("a law of spec/Algebra.tla is violated in the specification itself (%s); this is not a verdict about "
                               "the code:\n%s" % (r.violation, "\n".join(r.error_trace)[:3000]))
-    choose = [o for (t, o) in r.prints if t == "CHOOSE"]
-    lag = [o for (t, o) in r.prints if t == "LAG"]
-    dkgc = [o for (t, o) in r.prints if t == "DKGC"]
-    if not choose or not lag or not dkgc:
-        raise vlib.CheckError("AlgebraMC printed no vectors")
-    # the polynomial ModelVerdict used (same formula as AlgebraMC.EmitVectors)
-    modelp = [(c % (MODELQ - 1)) + 1 for c in sample[0]]
-    return r, choose, lag, dkgc, modelp, sample
+    vec = {}
+    for (t, o) in r.prints:
+        vec.setdefault(t, []).append(o)
+    for t in ("CHOOSE", "LAG", "DKGC", "BIGC", "BDEALC", "BCHOOSEC"):
+        if not vec.get(t):
+            raise vlib.CheckError("AlgebraMC printed no %s vectors" % t)
+    # deterministic order of the case lists (TLC's workers print in any order)
+    vec["DKGC"].sort(key=lambda c: (c["big"], c["n"], c["t"], c["pos"], c["off"]))
+    vec["BIGC"].sort(key=lambda c: (c["cls"], len(c["pts"]), c["pts"]))
+    vec["BDEALC"].sort(key=lambda c: (c["n"], c["t"]))
+    vec["BCHOOSEC"].sort(key=lambda c: (c["n"], c["k"]))
+    ctx = dict(modelp=sample[0], big=big)      # what AlgebraTrace needs to recompute verdicts and completeness
+    return r, vec, ctx, sample
 
 
 # ------------------------------------------------------------------------------------------------------------------------------
@@ -90,7 +145,33 @@ def rec_subsets(n, t, rng):
     return out
 
 
-def build_job(p, choose, lag, dkgc, rng):
+def deal_subsets(n, t, classes, rng):
+    """one subset of 1..n per class of Algebra!DealClasses (shapes are re-checked by AlgebraTrace!DealShapeOK)"""
+    cl, subs = [], []
+    for c in sorted(classes):
+        if c == "first":
+            pts = list(range(1, t + 1))
+        elif c == "last":
+            pts = list(range(n - t + 1, n + 1))
+        elif c == "all":
+            pts = list(range(1, n + 1))
+        elif c == "randt":
+            pts = sorted(rng.sample(range(1, n + 1), t))
+        elif c == "randmore":
+            pts = rng.sample(range(1, n + 1), rng.randint(t, n))      # in a seeded order of the points
+        elif c == "below":
+            pts = list(range(1, t))
+            if len(pts) < 2:
+                continue
+        else:
+            raise vlib.CheckError("unknown class of subsets %r" % c)
+        cl.append(c)
+        subs.append(pts)
+    return cl, subs
+
+
+def build_job(p, vec, rng):
+    choose, lag, dkgc = vec["CHOOSE"], vec["LAG"], vec["DKGC"]
     job = dict(workers=p["workers"], seed=rng.randrange(1 << 30), timeout_ms=60000)
     job["choose"] = [dict(n=c["n"], k=c["k"]) for c in choose]
     job["lag"] = [dict(pts=c["pts"], i=c["i"], num=c["num"], den=c["den"]) for c in lag]
@@ -108,7 +189,7 @@ def build_job(p, choose, lag, dkgc, rng):
         for rep in range(p["dkg_reps"]):
             for c in dkgc:
                 n, t = c["n"], c["t"]
-                if n > p["DkgN"]:
+                if n > p["DkgN"] or c["big"]:
                     continue
                 case = dict(scheme=scheme, n=n, t=t, pos=c["pos"], off=c["off"], expect=c["expect"], comp=0, ids=[], subs=[], exh=False,
                             msglen=1, seed=rng.randrange(1 << 30))
@@ -127,8 +208,30 @@ def build_job(p, choose, lag, dkgc, rng):
                         rest = [s for s in allsubs if len(s) != n]
                         rng.shuffle(rest)
                         case["subs"] = must + rest[:p["ps_sample"]]
+                case["big"] = False
                 dkg.append(case)
+    # large DKGs (the cross-check enumerates C(n, t) subsets of t points each): every case the model lists, once per scheme
+    for scheme in ("bls", "ps"):
+        for c in dkgc:
+            if not c["big"]:
+                continue
+            n, t = c["n"], c["t"]
+            case = dict(scheme=scheme, n=n, t=t, pos=c["pos"], off=c["off"], expect=c["expect"], comp=rng.randrange(0, 3) if scheme == "ps" else 0,
+                        ids=[], subs=[], exh=False, msglen=1, seed=rng.randrange(1 << 30), big=True, time_ms=900000)
+            if not c["off"]:
+                _, subs = deal_subsets(n, t, ["first", "last", "all", "randt", "below"], rng)
+                case["subs"] = [sorted(x) for x in subs]
+            dkg.append(case)
     job["dkg"] = dkg
+    job["blag"] = [dict(cls=c["cls"], pts=c["pts"], seed=rng.randrange(1 << 30)) for c in vec["BIGC"]]
+    job["bchoose"] = [dict(n=c["n"], k=c["k"]) for c in vec["BCHOOSEC"]]
+    bdeal = []
+    for scheme in ("bls", "ps"):
+        for c in vec["BDEALC"]:
+            for mode in ("crypto", "seeded"):
+                cl, subs = deal_subsets(c["n"], c["t"], c["classes"], rng)
+                bdeal.append(dict(scheme=scheme, n=c["n"], t=c["t"], mode=mode, classes=cl, subs=subs, msglen=1, seed=rng.randrange(1 << 30)))
+    job["bdeal"] = bdeal
     return job
 
 
@@ -136,16 +239,24 @@ def job_fragments(job):
     """record index (0-based, in the order the driver emits) -> job fragment that reproduces that record"""
     frags = []
     for pkg in ("bls", "ps"):
-        for c in job["choose"]:
+        for c in job.get("choose", []):
             frags.append(dict(choose=[c]))
     for pkg in ("bls", "ps"):
-        for c in job["lag"]:
+        for c in job.get("lag", []):
             frags.append(dict(lag=[c]))
             frags.append(dict(lag=[c]))
-    for c in job["rec"]:
+    for c in job.get("rec", []):
         frags.append(dict(rec=[c]))
-    for c in job["dkg"]:
+    for c in job.get("dkg", []):
         frags.append(dict(dkg=[c]))
+    for pkg in ("bls", "ps"):
+        for c in job.get("blag", []):
+            frags.append(dict(blag=[c]))
+    for pkg in ("bls", "ps"):
+        for c in job.get("bchoose", []):
+            frags.append(dict(bchoose=[c]))
+    for c in job.get("bdeal", []):
+        frags.append(dict(bdeal=[c]))
     return frags
 
 
@@ -174,23 +285,26 @@ def run_driver(drv, job, wd, name):
     return recs, outp
 
 
-def validate(wd, trace_path, modelp, name):
+def validate(wd, trace_path, ctx, name, coverage):
+    big = ctx.get("big") or NO_BIG
     with open(os.path.join(wd, "AT_%s.tla" % name), "w") as f:
-        f.write("---- MODULE AT_%s ----\nEXTENDS AlgebraTrace\nc_P == %s\n====\n" % (name, tla_seq(modelp)))
+        f.write("---- MODULE AT_%s ----\nEXTENDS AlgebraTrace\nc_P == %s\n%s====\n" % (name, tla_seq(ctx["modelp"]), big_defs(big)))
     with open(os.path.join(wd, "AT_%s.cfg" % name), "w") as f:
-        f.write('CONSTANTS TraceFile = "%s" ModelQ = %d ModelP <- c_P\nINIT TInit\nNEXT TNext\n' % (os.path.basename(trace_path), MODELQ))
+        f.write('CONSTANTS TraceFile = "%s" ModelQ = %d ModelP <- c_P\n %s CheckCoverage = %s\nINIT TInit\nNEXT TNext\n'
+                % (os.path.basename(trace_path), MODELQ, BIG_CFG, "TRUE" if coverage else "FALSE"))
     r = vlib.run_tlc("AT_%s" % name, "AT_%s.cfg" % name, SPEC_FILES, workdir=wd, workers=1, timeout=1500,
-                     keep_prints=["VIOL", "DRIFT", "BAD", "END"])
+                     keep_prints=["VIOL", "DRIFT", "BAD", "END", "COVER"])
     if r.violation:
         raise vlib.CheckError("trace validation stopped: %s\n%s" % (r.violation, r.out[-2000:]))
     return r
 
 
 def expected_counts(job):
-    return dict(choose=2 * len(job.get("choose", [])), lag=4 * len(job.get("lag", [])), rec=len(job.get("rec", [])), dkg=len(job.get("dkg", [])))
+    return dict(choose=2 * len(job.get("choose", [])), lag=4 * len(job.get("lag", [])), rec=len(job.get("rec", [])), dkg=len(job.get("dkg", [])),
+                blag=2 * len(job.get("blag", [])), bchoose=2 * len(job.get("bchoose", [])), bdeal=len(job.get("bdeal", [])))
 
 
-def execute(drv, job, wd, modelp, name, retry_unusable=True):
+def execute(drv, job, wd, ctx, name, retry_unusable=True, coverage=False):
     """run the job on the real code and validate; returns (records, tlc result, viols, drifts)"""
     recs, path = run_driver(drv, job, wd, name)
     want = expected_counts(job)
@@ -219,7 +333,7 @@ def execute(drv, job, wd, modelp, name, retry_unusable=True):
         with open(path, "w") as f:
             for r in recs:
                 f.write(json.dumps(r) + "\n")
-    tr = validate(wd, path, modelp, name)
+    tr = validate(wd, path, ctx, name, coverage)
     ends = [o for (t, o) in tr.prints if t == "END"]
     if len(ends) != 1 or ends[0]["n"] != len(recs):
         raise vlib.CheckError("trace validation did not reach the end of the %d records: %s" % (len(recs), tr.out[-1500:]))
@@ -262,25 +376,52 @@ def inject(recs, what):
         if what == "detect" and r["k"] == "dkg" and r["n"] == 4 and r["t"] == 3 and r["pos"] == 4 and r["off"]:
             r["errs"] = [False] * len(r["errs"])
             return
+        if what == "moment" and r["k"] == "blag" and r["size"] == 21 and r["cls"] == "prefix":
+            r["moments"][7], r["nfail"], r["firstfail"] = False, 1, 7
+            return
+        if what == "chain" and r["k"] == "blag" and r["size"] == 22 and r["cls"] == "window9" and r["pkg"] == "ps":
+            r["chains"][1]["steps"][5] = [0, 0]
+            return
+        if what == "bchoose" and r["k"] == "bchoose" and r["n"] == 24 and r["kk"] == 22:
+            r["count"] -= 1
+            return
+        if what == "bdeal" and r["k"] == "bdeal" and r["n"] == 32 and r["scheme"] == "ps":
+            r["oks"][0] = False
+            return
     raise vlib.CheckError("VERIF_ALG_INJECT: nothing to falsify for %r" % what)
 
 
 def describe(v):
     d = v.get("detail", {})
     m = v["mon"]
-    if m == "ChooseCoversEveryKSubset":
+    if m == "ChooseCoversEveryKSubset" and "count" not in d:
         return "real chooseKoutOfN(%s, %s) does not enumerate exactly the k-subsets of 1..n: %s missing, %s foreign %s" % (
             d.get("n"), d.get("k"), d.get("missing"), d.get("foreign"), d.get("panic") or "")
     if m == "LagrangeCoefficient":
         return "real lagrangeCoefficient(%s, %s) = %s/%s (0x%s), the interpolating coefficient is %s/%s %s" % (
             d.get("i"), d.get("pts"), d.get("got", [0, 0])[0], d.get("got", [0, 0])[1], d.get("value"), d.get("want", [0, 0])[0],
             d.get("want", [0, 0])[1], d.get("panic") or "")
+    if m == "LagrangeLawsOnLargeSets":
+        return "the real Lagrange coefficients of a set of %s evaluation points (class %s, %s..%s) violate the laws of interpolation at zero: " \
+               "%s of the moments sum_i lambda_i*i^k = [k=0] are wrong (first k=%s), reconstructs a polynomial of degree < |S|: %s, " \
+               "independent of the order of the points: %s, increment law lambda_i(S+m) = lambda_i(S)*m/(m-i): %s %s" % (
+                   d.get("size"), d.get("cls"), d.get("lo"), d.get("hi"), d.get("moments_failing"), d.get("first_failing_k"),
+                   d.get("reconstructs"), d.get("order_independent"), d.get("increment_law"), d.get("panic") or "")
+    if m == "ChooseCoversEveryKSubset" and "count" in d:
+        return "real chooseKoutOfN(%s, %s) yields %s subsets (C(n,k) = %s), all of them k-subsets of 1..n: %s, pairwise distinct: %s %s" % (
+            d.get("n"), d.get("k"), d.get("count"), d.get("want"), d.get("valid"), d.get("distinct"), d.get("panic") or "")
+    if m == "ReconstructsDealtSecret" and "class" in d:
+        return "shares of a large dealing by the real SSS.Gen (n=%s, t=%s, %s reader) do not reconstruct the dealt secret from the %s points " \
+               "of class '%s'" % (d.get("n"), d.get("t"), d.get("mode"), d.get("size"), d.get("class"))
     if m == "ReconstructsDealtSecret":
         return "shares dealt by the real SSS.Gen (n=%s, t=%s, %s reader) do not reconstruct the dealt secret from the points %s %s" % (
             d.get("n"), d.get("t"), d.get("mode"), d.get("pts"), d.get("panic") or "")
     if m == "OnPolynomialKeysAccepted":
         return "real DKG n=%s t=%s (harness party at position %s, on the polynomial) was not accepted by every party: %s" % (
             d.get("n"), d.get("t"), d.get("pos"), d.get("err"))
+    if m == "SharesAggregateToThresholdKey" and d.get("dealer"):
+        return "large dealing n=%s t=%s (real SSS.Gen, real instances loaded with the shares): the partial signatures of the subsets (class, size) " \
+               "%s do not aggregate to a signature under the public key of the dealt secret %s" % (d.get("n"), d.get("t"), d.get("failing"), d.get("err") or "")
     if m == "SharesAggregateToThresholdKey":
         return "after a real DKG n=%s t=%s the partial signatures of the subsets %s do not aggregate to a signature under the reported " \
                "threshold key %s" % (d.get("n"), d.get("t"), d.get("failing"), d.get("err") or "")
@@ -293,7 +434,7 @@ def describe(v):
 # ------------------------------------------------------------------------------------------------------------------------------
 # step 4: self-test of the monitors
 
-def selftest(wd, recs, modelp):
+def selftest(wd, recs, ctx):
     """corrupt accepted records one field at a time; the trace specification must report every one of them"""
     def first(pred):
         for r in recs:
@@ -338,14 +479,50 @@ def selftest(wd, recs, modelp):
         if r:
             r["errs"][-1] = False
             muts.append((r, "OffPolynomialKeyDetected"))
-    if len(muts) < 10:
+    for pkg in ("bls", "ps"):
+        r = first(lambda r: r["k"] == "blag" and r["pkg"] == pkg and r["size"] >= 21)
+        if r:
+            r["moments"][r["size"] - 1] = False
+            muts.append((r, "LagrangeLawsOnLargeSets"))
+        r = first(lambda r: r["k"] == "blag" and r["pkg"] == pkg and r["size"] >= 21 and r["cls"] == "windowtop")
+        if r:
+            st = r["chains"][-1]["steps"][10]
+            r["chains"][-1]["steps"][10] = [st[0] + 1, st[1]]
+            muts.append((r, "LagrangeLawsOnLargeSets"))
+        r = first(lambda r: r["k"] == "blag" and r["pkg"] == pkg and r["cls"] == "sparse")
+        if r:
+            r["recon"] = False
+            muts.append((r, "LagrangeLawsOnLargeSets"))
+        r = first(lambda r: r["k"] == "bchoose" and r["pkg"] == pkg and r["kk"] >= 2 and r["count"] > 100)
+        if r:
+            r["count"] += 1
+            muts.append((r, "ChooseCoversEveryKSubset"))
+        r = first(lambda r: r["k"] == "bchoose" and r["pkg"] == pkg and r["kk"] >= 2 and r["n"] >= 20)
+        if r:
+            r["distinct"] = False
+            muts.append((r, "ChooseCoversEveryKSubset"))
+        r = first(lambda r: r["k"] == "bdeal" and r["scheme"] == pkg)
+        if r:
+            m = max(i for i, x in enumerate(r["subs"]) if len(x) >= r["t"])
+            r["eqs"][m] = False
+            muts.append((r, "ReconstructsDealtSecret"))
+        r = first(lambda r: r["k"] == "bdeal" and r["scheme"] == pkg and r["mode"] == "seeded")
+        if r:
+            m = min(i for i, x in enumerate(r["subs"]) if len(x) >= r["t"])
+            r["oks"][m] = False
+            muts.append((r, "SharesAggregateToThresholdKey"))
+        r = first(lambda r: r["k"] == "dkg" and r["scheme"] == pkg and r["big"] and r["expect"] == "detect")
+        if r:
+            r["errs"][0] = False
+            muts.append((r, "OffPolynomialKeyDetected"))
+    if len(muts) < 26:
         raise vlib.CheckError("self-test could not build its corrupted records (%d)" % len(muts))
     path = os.path.join(wd, "selftest.ndjson")
     with open(path, "w") as f:
         for i, (r, _) in enumerate(muts):
             r["id"] = i + 1
             f.write(json.dumps(r) + "\n")
-    tr = validate(wd, path, modelp, "selftest")
+    tr = validate(wd, path, dict(ctx, big=None), "selftest", False)
     seen = {(o["id"], o["mon"]) for (t, o) in tr.prints if t == "VIOL"}
     missed = [(i + 1, mon) for i, (_, mon) in enumerate(muts) if (i + 1, mon) not in seen]
     if missed:
@@ -357,7 +534,9 @@ def selftest(wd, recs, modelp):
 
 def summarise(recs):
     s = dict(choose=0, lag=0, dealings=0, reconstructions=0, dkg_runs=0, dkg_with_harness_party=0, dkg_off_polynomial=0,
-             dkg_detected=0, dkg_undetectable_t_eq_n=0, aggregations=0, below_threshold_canaries=0)
+             dkg_detected=0, dkg_undetectable_t_eq_n=0, aggregations=0, below_threshold_canaries=0, large_dkg_runs=0,
+             large_point_sets=0, large_set_moments=0, large_set_increment_steps=0, largest_point_set=0, largest_identifier=0,
+             large_choose=0, large_choose_subsets_enumerated=0, large_dealings=0, large_reconstructions=0, large_aggregations=0)
     for r in recs:
         if r["k"] == "choose":
             s["choose"] += 1
@@ -378,14 +557,34 @@ def summarise(recs):
                     s["dkg_undetectable_t_eq_n"] += 1
             s["aggregations"] += sum(1 for x in r["subs"] if len(x) >= r["t"])
             s["below_threshold_canaries"] += sum(1 for x in r["subs"] if len(x) < r["t"])
+            if r["big"]:
+                s["large_dkg_runs"] += 1
+        elif r["k"] == "blag":
+            s["large_point_sets"] += 1
+            s["large_set_moments"] += len(r["moments"])
+            s["large_set_increment_steps"] += sum(len(c["steps"]) for c in r["chains"])
+            s["largest_point_set"] = max(s["largest_point_set"], r["size"])
+            s["largest_identifier"] = max(s["largest_identifier"], r["pts"][-1])
+        elif r["k"] == "bchoose":
+            s["large_choose"] += 1
+            s["large_choose_subsets_enumerated"] += r["count"]
+        elif r["k"] == "bdeal":
+            s["large_dealings"] += 1
+            s["large_reconstructions"] += sum(1 for x in r["subs"] if len(x) >= r["t"])
+            s["large_aggregations"] += sum(1 for x in r["subs"] if len(x) >= r["t"])
+            s["below_threshold_canaries"] += sum(1 for x in r["subs"] if len(x) < r["t"])
     return s
 
 
 def slim(r):
     r = dict(r)
-    for k in ("subs", "eqs", "oks", "recs"):
-        if k in r and len(r[k]) > 6:
+    for k in ("subs", "eqs", "oks", "recs", "moments", "pts", "first", "last", "ids", "errs", "panics"):
+        if k in r and isinstance(r[k], list) and len(r[k]) > 6:
             r[k] = r[k][:6] + ["... %d more" % (len(r[k]) - 6)]
+    if "subs" in r:
+        r["subs"] = [(x[:6] + ["... %d more" % (len(x) - 6)]) if isinstance(x, list) and len(x) > 8 else x for x in r["subs"]]
+    if "chains" in r:
+        r["chains"] = [dict(c, steps=c["steps"][:4] + ["... %d more" % max(0, len(c["steps"]) - 4)]) for c in r["chains"]]
     return r
 
 
@@ -396,12 +595,16 @@ def run(pid):
     rng = random.Random(vlib.seed())
     verdict = vlib.Verdict(pid)
 
-    mc, choose, lag, dkgc, modelp, sample = tlc_laws(wd, p, rng)
-    log("laws: %r; vectors: %d choose, %d lagrange, %d dkg cases" % (mc, len(choose), len(lag), len(dkgc)))
-    job = build_job(p, choose, lag, dkgc, rng)
+    mc, vec, ctx, sample = tlc_laws(wd, p, rng)
+    log("laws: %r; vectors: %s" % (mc, ", ".join("%d %s" % (len(v), k) for k, v in sorted(vec.items()))))
+    job = build_job(p, vec, rng)
     drv = vlib.build_harness()
-    recs, tv, viols, drifts = execute(drv, job, wd, modelp, "main")
-    log("real code: %d records validated by TLC (%r): %d violations, %d drift" % (len(recs), tv, len(viols), len(drifts)))
+    recs, tv, viols, drifts = execute(drv, job, wd, ctx, "main", coverage=True)
+    cover = [o for (t, o) in tv.prints if t == "COVER"]
+    if len(cover) != 1:
+        raise vlib.CheckError("trace validation did not report the completeness of the large cases")
+    log("real code: %d records validated by TLC (%r): %d violations, %d drift; large cells executed: %s" % (
+        len(recs), tv, len(viols), len(drifts), json.dumps(cover[0])))
     frags = job_fragments(job)
     byid = {r["id"]: (i, r) for i, r in enumerate(recs)}
     for v in viols:
@@ -409,13 +612,13 @@ def run(pid):
         frag = dict(frags[i])
         verdict.violation(v["sig"], "%s: %s" % (v["mon"], describe(v)),
                           dict(property=pid, kind="algebra", monitor=v["mon"], signature=v["sig"], detail=v.get("detail"),
-                               job=dict(frag, seed=job["seed"], workers=1, timeout_ms=job["timeout_ms"]), modelp=modelp, record=slim(r)))
+                               job=dict(frag, seed=job["seed"], workers=1, timeout_ms=job["timeout_ms"]), modelp=ctx["modelp"], record=slim(r)))
     kinds = {}
     for d in drifts:
         kinds[d["kind"]] = kinds.get(d["kind"], 0) + 1
     for k, n in sorted(kinds.items()):
         print("DRIFT property=%s count=%d kind=%s" % (pid, n, k))
-    nmut, st = selftest(wd, recs, modelp)
+    nmut, st = selftest(wd, recs, ctx)
     log("self-test: %d corrupted records, all reported by the trace specification" % nmut)
 
     rcode = verdict.finish()
@@ -427,7 +630,12 @@ def run(pid):
                  lambda r: r["k"] == "rec" and r["mode"] == "crypto" and r["n"] == 5 and r["t"] == 2,
                  lambda r: r["k"] == "dkg" and r["off"] and r["expect"] == "detect" and r["n"] == 4,
                  lambda r: r["k"] == "dkg" and r["off"] and r["expect"] == "undetectable" and r["scheme"] == "ps",
-                 lambda r: r["k"] == "dkg" and r["signed"] and r["pos"] > 0 and r["n"] == 4 and r["t"] == 3):
+                 lambda r: r["k"] == "dkg" and r["signed"] and r["pos"] > 0 and r["n"] == 4 and r["t"] == 3,
+                 lambda r: r["k"] == "blag" and r["size"] == 22 and r["cls"] == "window9",
+                 lambda r: r["k"] == "blag" and r["size"] == 64 and r["cls"] == "sparse",
+                 lambda r: r["k"] == "bchoose" and r["n"] == 24,
+                 lambda r: r["k"] == "bdeal" and r["n"] == 32 and r["scheme"] == "ps",
+                 lambda r: r["k"] == "dkg" and r["big"] and r["off"] and r["expect"] == "detect"):
         for r in recs:
             if pred(r):
                 samples.append(slim(r))
@@ -441,8 +649,15 @@ def run(pid):
         samples=samples,
         exhaustive=False,
         exhaustive_parts="complete: every (n,k) with n <= %d, every (S,i) with S in 1..%d, every (n,t,position,on/off) DKG case with n <= %d, "
-                         "every subset of >= t points per dealing (n <= %d) and per BLS DKG; sampled: polynomials (random by nature)"
+                         "every subset of >= t points per dealing (n <= %d) and per BLS DKG; every large cell the model demands (see large_cases); "
+                         "sampled: polynomials (random by nature), the large point sets beyond the window classes (seeded)"
                          % (p["VecN"], p["VecN"], p["DkgN"], p["RecN"]),
+        large_cases=dict(point_set_sizes=ctx["big"]["sizes"], window_classes=["prefix 1..s", "window 9..8+s", "top window ..65535", "sparse 1..65535",
+                                                                              "sparse 1..46336", "seeded random (sparse and dense)"],
+                         seeded_random_sets=len(ctx["big"]["randsets"]), dealings_n_t=ctx["big"]["nt"], dkg_n_t=ctx["big"]["dkg"],
+                         choose_n_k=len(ctx["big"]["choose"]), cells_executed=cover[0],
+                         laws="moment law sum_i lambda_i*i^k=[k=0] for every 0<=k<|S|; reconstruction of a polynomial of degree <|S|; order "
+                              "independence; increment law lambda_i(S+m)=lambda_i(S)*m/(m-i) (recomputed by TLC as reduced rationals)"),
         configs=dict(primes=PRIMES, MaxN=p["MaxN"], VecN=p["VecN"], FullMax=p["FullMax"], DkgN=p["DkgN"], RecN=p["RecN"], sample_polynomials=len(sample), model_field=MODELQ,
                      invariants=MC_INVARIANTS),
         model_states=mc.distinct, trace_states=tv.distinct,
@@ -451,7 +666,10 @@ def run(pid):
         rule="TLC: laws of spec/Algebra.tla over GF(7,11,13,46337) for all 2<=t<=n<=MaxN (every polynomial of degree < t over GF(q), q<=13, while q^t<=FullMax, "
              "else unit/extreme/seeded polynomials), every subset, every position of one off-polynomial key; code: every vector and case "
              "executed on mpc/bls and mpc/ps (chooseKoutOfN, lagrangeCoefficient, SSS.Gen+reconstruct, real DKGs through the public API "
-             "with aggregation of every subset); TLC (AlgebraTrace) recomputes every expected value from the recorded results",
+             "with aggregation of every subset); LARGE inputs: the same Lagrange laws on point sets of up to 256 points / identifiers up to "
+             "65535 (TLC proves the moment law in GF(46337) for every demanded set below the field size), chooseKoutOfN counts for large "
+             "(n,k), large dealings and DKGs; TLC (AlgebraTrace) recomputes every expected value it can from the recorded results, judges "
+             "the reported law evaluations and checks that every demanded large cell was executed",
     ), [
         "group elements are modelled by their discrete logarithms in small prime fields; bn254 arithmetic, pairings, hashing and ASN.1 "
         "are evaluated by the real library only and compared with the model's verdict per case",
@@ -461,6 +679,10 @@ def run(pid):
         "DKG runs use an in-memory router with synchronous delivery (as the repository's own tests); schedules, faults and "
         "Byzantine strategies other than one off-polynomial reveal belong to C01/C05/C11",
         "PS prover evaluation points are the party identifiers, so PS runs use identifiers 1..n",
+        "laws on point sets that exceed the model field (identifiers up to 65535) are evaluated modulo the group order by the harness "
+        "(math/big) and reported as booleans with their inputs; TLC recomputes the increment-law rationals exactly and checks completeness",
+        "large DKGs are limited to (n,t) with few t-subsets (the code's cross-check enumerates C(n,t) subsets); larger (n,t) are covered "
+        "in trusted-dealer mode (real Gen, reconstruct, partial signatures by real instances loaded through SetShareData)",
     ], violations=len(verdict.violations))
     return rcode
 
@@ -474,7 +696,7 @@ def replay(pid, path):
     verdict = vlib.Verdict(pid)
     drv = vlib.build_harness()
     job = o["job"]
-    recs, tv, viols, drifts = execute(drv, job, wd, o["modelp"], "replay")
+    recs, tv, viols, drifts = execute(drv, job, wd, dict(modelp=o["modelp"], big=None), "replay")
     for r in recs:
         print("record: %s" % json.dumps(slim(r)))
     for v in viols:
